@@ -7,7 +7,7 @@ except ImportError:  # pragma: no cover
     from backports.functools_lru_cache import lru_cache
 
 from iso8601 import iso8601
-from pyparsing import Word, ZeroOrMore, Literal, Forward, Combine, Optional, Regex, OneOrMore, \
+from pyparsing import Word, ZeroOrMore, Literal, Keyword, Forward, Combine, Optional, Regex, OneOrMore, \
     CaselessLiteral, Suppress, Group
 
 from .datatypes import *
@@ -214,7 +214,7 @@ hs_cmpOp = Literal("==") | Literal("!=") | Literal("<=") | Literal(">=") | Liter
 hs_cmp = (hs_path + hs_cmpOp + hs_val).setParseAction(
     lambda toks: FilterBinary(toks[1], toks[0], toks[2])
 )
-hs_missing = (Suppress(Literal("not")) + hs_path).setParseAction(
+hs_missing = (Suppress(Keyword("not")) + hs_path).setParseAction(
     lambda toks: FilterUnary("not", toks[0])
 )
 hs_has = hs_path.copy().setParseAction(
@@ -235,8 +235,8 @@ def _fold_left(toks):
     return node
 
 
-hs_condAnd = (hs_term + ZeroOrMore(Literal("and") + hs_term)).setParseAction(_fold_left)
-hs_condOr = (hs_condAnd + ZeroOrMore(Literal("or") + hs_condAnd)).setParseAction(_fold_left)
+hs_condAnd = (hs_term + ZeroOrMore(Keyword("and") + hs_term)).setParseAction(_fold_left)
+hs_condOr = (hs_condAnd + ZeroOrMore(Keyword("or") + hs_condAnd)).setParseAction(_fold_left)
 hs_filter <<= hs_condOr
 
 
